@@ -154,3 +154,61 @@ def tape_strategy(bits=2048):
     from hypothesis import strategies as st
 
     return st.integers(min_value=0, max_value=(1 << bits) - 1).map(Tape)
+
+
+LICENSE_GROUP_NAMES = ["FREE", "L1", "L2", "L3", "EULAS", "ALL"]
+
+
+def gen_license_group_defs(t, lic):
+    """license_groups definitions as [[name, [members...]], ...] in LISTING order, plus class tags.
+
+    FREE heads a reference chain FREE -> @L1 -> @L2 -> @L3 of generated depth 0..3 (every level may add its
+    own licenses); EULAS is a flat sibling, ALL an optional nested sibling (@EULAS and/or @<innermost>), unused
+    chain names may appear as flat siblings.  The listing order is a generated dimension: outer-first (the
+    layout of Gentoo's license_groups), inner-first or shuffled."""
+    depth = t.pick([0, 1, 2, 2, 2, 3, 3])
+    chain = ["FREE", "L1", "L2", "L3"][: depth + 1]
+    defs = {}
+    for i, name in enumerate(chain):
+        if i < depth:
+            defs[name] = ["@" + chain[i + 1]] + t.subset(lic, 0, 2)
+            if t.take(2):
+                defs[name].reverse()
+        else:
+            defs[name] = t.subset(lic, 1, 3)
+    for name in ["L1", "L2", "L3"][depth:]:
+        if t.take(3) == 0:
+            defs[name] = t.subset(lic, 1, 2)
+    defs["EULAS"] = t.subset(lic[-2:], 1, 2)
+    tags = []
+    if t.take(2):
+        members = ["@EULAS"]
+        if t.take(2):
+            members.append("@" + chain[-1])
+        if t.take(2):
+            members.reverse()
+        defs["ALL"] = members + t.subset(lic, 0, 1)
+        tags.append("license_group_sibling_nested")
+    rest = [n for n in defs if n not in chain]
+    mode = t.take(3)
+    if mode == 0:
+        order = chain + rest
+    elif mode == 1:
+        order = rest + chain[::-1]
+    else:
+        order = list(defs)
+        for i in range(len(order) - 1, 0, -1):
+            j = t.take(i + 1)
+            order[i], order[j] = order[j], order[i]
+    pos = [order.index(n) for n in chain]
+    if depth >= 1:
+        if pos == sorted(pos):
+            layout = "outer_first"
+        elif pos == sorted(pos, reverse=True):
+            layout = "inner_first"
+        else:
+            layout = "mixed"
+        tags.append(f"license_group_depth{'>=2' if depth >= 2 else '=1'}_{layout}")
+    else:
+        tags.append("license_group_flat")
+    return [[n, defs[n]] for n in order], tags
